@@ -441,6 +441,10 @@ class StoreRun:
         got = be.list_functions()
         names = sorted(f.qualified_name for f in got)
         want = sorted({storeh.qname(self.keys[k][0]) for k in self.model.d})
+        if self.faulted and set(want) <= set(names):
+            # after an injected write error an empty function directory may remain: listing such a function (with no
+            # mementos) is a residue of the fault, outside the dictionary behaviour this compares
+            return None
         if names != want:
             return ("list-functions", "list_functions() = %s, live functions are %s" % (names, want))
         return None
